@@ -172,7 +172,7 @@ def cargo_harness(ctx, bins):
 
 def harness_bin(name): return os.path.join(TARGET, 'debug', name)
 
-def cargo_repo_bins(ctx, bins=('sccache',), features='dist-client'):
+def cargo_repo_bins(ctx, bins=('sccache',), features='dist-client,dist-server'):
     """build real binaries of /repo's current tree (hooks on) into .build/target-repo"""
     cmd = ['cargo', 'build', '--offline', '--manifest-path', os.path.join(REPO, 'Cargo.toml'), '--target-dir', os.path.join(BUILD, 'target-repo'),
            '--no-default-features', '--features', features] + sum((['--bin', b] for b in bins), [])
